@@ -380,6 +380,9 @@ func gen(g *zv.Gen) {
 		keep(c)
 	}
 
+	// ---- per-extension ties: Marshal / CheckImplemented alone, boundary values, round trips, WriteToConfig
+	genExtra(g, tb)
+
 	// ---- the hello on the wire of a real client (c29 wire)
 	genWire(g, tb)
 
